@@ -12,7 +12,7 @@
    The correspondence run evaluates key_move_b (it must be true) on every legal move it generates; that every legal move
    of every position of D passes it is not proved. *)
 From Coq Require Import NArith ZArith List Bool.
-From Rawr Require Import Consts Bits Magic Position MoveGen MakeMove MakeStages Rules Abs KeySpec KeyFacts HashFacts KeyAbs KeyMove GenSane Closure ClosureNull.
+From Rawr Require Import Consts Bits Magic Position MoveGen MakeMove MakeStages Rules Abs KeySpec KeyFacts HashFacts KeyAbs KeyMove GenSane Closure ClosureNull EpRetro GenLegal.
 Import ListNotations.
 Local Open Scope N_scope.
 
@@ -81,6 +81,12 @@ Theorem C04_key_invariant_along_moves_and_null_moves : forall os p, Inv p -> leg
   hash q = calculate_hash q /\ calculate_hash q = KeySpec.spec_key (abs_state q).
 Proof. exact ops_keys. Qed.
 
+(* ---- the same with no legality premise on the moves (GenLegal.v): along every sequence of moves the generator emits *)
+Theorem C04_key_invariant_along_every_sequence_of_generated_moves : forall ms p, InvR p -> gen_seq p ms ->
+  let q := fold_left (makemove true) ms p in
+  hash q = calculate_hash q /\ calculate_hash q = KeySpec.spec_key (abs_state q).
+Proof. exact gen_run_keys. Qed.
+
 Print Assumptions C04_key_min_distance.
 Print Assumptions C04_makenull_hash.
 Print Assumptions C04_key_table_size.
@@ -91,3 +97,4 @@ Print Assumptions C04_key_invariant_step.
 Print Assumptions C04_every_generated_move_keeps_the_key.
 Print Assumptions C04_key_invariant_along_every_sequence.
 Print Assumptions C04_key_invariant_along_moves_and_null_moves.
+Print Assumptions C04_key_invariant_along_every_sequence_of_generated_moves.
